@@ -124,7 +124,9 @@ REF_BRACKETS = {"package-name": "new", "package-path": "path"}
 
 TRIVIA = [" ", "\n", "  \t", " // line comment\n", " /* block */ ", "\r\n", " /* a /* nested */ b */ ", "\n\n  ",
           # doc comments are comments lexically; in front of a statement or item they are kept in the tree
-          "\n/// a doc line\n", "\n/** a block doc\n  * with a second line\n    and an indented third\n */\n"]
+          "\n/// a doc line\n", "\n/** a block doc\n  * with a second line\n    and an indented third\n */\n",
+          # a blank line inside a block doc comment, an empty doc line, an empty block doc
+          "\n/** before a blank line\n\n    after it */\n", "\n///\n/// after an empty doc line\n", "\n/** */\n"]
 
 KEYWORDS = ["import", "as", "interface", "use", "world", "export", "include", "with", "resource", "constructor",
             "static", "variant", "record", "flags", "enum", "type", "func", "tuple", "list", "option", "result",
